@@ -24,10 +24,25 @@ theorem onMol_inv {p : Pool} (h : PoolInv p) (i : Nat) (f : Mol → Mol × Outco
   | none => exact h
   | some m => exact poolInv_set h i _ (hf m (poolInv_get h i m hm))
 
-theorem step_inv {p : Pool} (h : PoolInv p) (op : Op) : PoolInv (step p op).1 := by
+/-- `Molecule.clear()` on a molecule that has an interaction with an atom is the one operation
+that leaves the reachable states of the invariant (finding F-C12-4); every other operation, and a
+`clear` of a molecule whose interactions have no atom, is safe -/
+def Op.safe (p : Pool) : Op → Bool
+  | .clear i => (p[i]?).all (fun m => decide (∀ ti ∈ m.inters, ti.2.atoms = []))
+  | _ => true
+
+theorem fromBlockStep_inv {p : Pool} (h : PoolInv p) (b : Block) (ao ro co : Int) :
+    PoolInv (fromBlockStep p b ao ro co).1 := by
+  unfold fromBlockStep
+  cases hm : b.toMolecule ao ro co with
+  | none => exact h
+  | some m => exact poolInv_append h _ (toMolecule_inv' b ao ro co m hm)
+
+theorem step_inv {p : Pool} (h : PoolInv p) (op : Op) (hs : op.safe p = true) : PoolInv (step p op).1 := by
   cases op with
   | addNode i k a => exact onMol_inv h i _ (fun m hm => addNode_inv hm k a)
   | addNodes i l => exact onMol_inv h i _ (fun m hm => addNodes_inv hm l)
+  | addNodesC i l c => exact onMol_inv h i _ (fun m hm => addNodes_inv hm _)
   | removeNode i k =>
     apply onMol_inv h i
     intro m hm
@@ -36,15 +51,34 @@ theorem step_inv {p : Pool} (h : PoolInv p) (op : Op) : PoolInv (step p op).1 :=
     · exact hm
   | removeNodes i ks => exact onMol_inv h i _ (fun m hm => dropNodes_inv hm ks)
   | addEdge i u v => exact onMol_inv h i _ (fun m hm => addEdge_inv hm u v)
-  | addInter i ty atoms params version =>
-    exact onMol_inv h i _ (fun m hm => addInter_inv hm ty atoms params version)
-  | addOrReplace i ty atoms params version cites =>
-    exact onMol_inv h i _ (fun m hm => addOrReplace_inv hm ty atoms params version cites)
+  | addEdgeA i u v a => exact onMol_inv h i _ (fun m hm => addEdgeA_inv hm u v a)
+  | addEdgesA i l => exact onMol_inv h i _ (fun m hm => addEdgesA_inv hm l)
+  | removeEdge i u v =>
+    apply onMol_inv h i
+    intro m hm
+    split
+    · exact dropEdges_inv hm _
+    · exact hm
+  | removeEdges i l => exact onMol_inv h i _ (fun m hm => dropEdges_inv hm l)
+  | makeEdgesType i ty => exact onMol_inv h i _ (fun m hm => makeEdgesType_inv hm ty)
+  | makeEdgesAll i => exact onMol_inv h i _ (fun m hm => makeEdgesAll_inv hm)
+  | clear i =>
+    simp only [step, onMol]
+    cases hm : p[i]? with
+    | none => exact h
+    | some m =>
+      simp only [Op.safe, hm, Option.all_some, decide_eq_true_eq] at hs
+      exact poolInv_set h i _ ((clear_inv_iff m).mpr hs)
+  | addInter i ty atoms params version edge =>
+    exact onMol_inv h i _ (fun m hm => addInter_inv hm ty atoms params version edge)
+  | addOrReplace i ty atoms params version cites edge =>
+    exact onMol_inv h i _ (fun m hm => addOrReplace_inv hm ty atoms params version cites edge)
   | removeInter i ty atoms version =>
     exact onMol_inv h i _ (fun m hm => removeInter_inv hm ty atoms version)
   | removeMatching i ty t => exact onMol_inv h i _ (fun m hm => removeMatching_inv hm ty t)
   | pruneEdges i a b => exact onMol_inv h i _ (fun m hm => pruneEdges_inv hm a b)
   | pruneByName i na nb => exact onMol_inv h i _ (fun m hm => pruneByName_inv hm na nb)
+  | addLog i lvl entry args => exact onMol_inv h i _ (fun m hm => addLog_inv hm lvl entry args)
   | copy i =>
     simp only [step]
     cases hm : p[i]? with
@@ -62,39 +96,65 @@ theorem step_inv {p : Pool} (h : PoolInv p) (op : Op) : PoolInv (step p op).1 :=
   | merge i j =>
     simp only [step]
     split
-    · exact h
+    · exact onMol_inv h i _ (fun m hm => selfMerge_inv hm)
     · cases ha : p[i]? with
       | none => exact h
       | some a =>
         cases hb : p[j]? with
         | none => exact h
         | some b => exact poolInv_set h i _ (merge_inv (poolInv_get h i a ha) (poolInv_get h j b hb))
-  | newMol n =>
+  | newMol n ff =>
     apply poolInv_append h
     apply Mol.inv_of_wf_none _ rfl
     refine ⟨List.nodup_nil, ?_, ?_⟩
     · intro e he; cases he
     · intro ti hti; cases hti
-  | fromBlock b ao ro co =>
+  | fromBlock b ao ro co => exact fromBlockStep_inv h b ao ro co
+  | buildBlock b0 steps ao ro co =>
     simp only [step]
-    cases hm : b.toMolecule ao ro co with
-    | none => exact h
-    | some m => exact poolInv_append h _ (toMolecule_inv' b ao ro co m hm)
+    cases hb : b0.build steps with
+    | error e => exact h
+    | ok b => exact fromBlockStep_inv h b ao ro co
 
-theorem run_inv {p : Pool} (h : PoolInv p) (ops : List Op) : PoolInv (run p ops) := by
+/-- a history in which every step is safe where it is applied -/
+def SafeRun (p : Pool) : List Op → Bool
+  | [] => true
+  | o :: t => o.safe p && SafeRun (step p o).1 t
+
+def Op.isClear : Op → Bool
+  | .clear _ => true
+  | _ => false
+
+theorem safe_of_not_clear (p : Pool) (op : Op) (h : op.isClear = false) : op.safe p = true := by
+  cases op <;> first | rfl | (simp [Op.isClear] at h)
+
+theorem safeRun_of_no_clear (p : Pool) (ops : List Op) (h : ∀ op ∈ ops, op.isClear = false) :
+    SafeRun p ops = true := by
+  induction ops generalizing p with
+  | nil => rfl
+  | cons o t ih =>
+    simp only [SafeRun, Bool.and_eq_true]
+    exact ⟨safe_of_not_clear p o (h o List.mem_cons_self), ih _ (fun op hop => h op (List.mem_cons_of_mem _ hop))⟩
+
+theorem run_inv {p : Pool} (h : PoolInv p) (ops : List Op) (hs : SafeRun p ops = true) : PoolInv (run p ops) := by
   induction ops generalizing p with
   | nil => exact h
-  | cons o t ih => exact ih (step_inv h o)
+  | cons o t ih =>
+    simp only [SafeRun, Bool.and_eq_true] at hs
+    exact ih (step_inv h o hs.1) hs.2
 
 /-! ### frame -/
 
 /-- the pool index an operation edits in place; `none` for the operations that only append -/
 def Op.target : Op → Option Nat
-  | .addNode i .. => some i | .addNodes i .. => some i | .removeNode i .. => some i
-  | .removeNodes i .. => some i | .addEdge i .. => some i | .addInter i .. => some i
+  | .addNode i .. => some i | .addNodes i .. => some i | .addNodesC i .. => some i | .removeNode i .. => some i
+  | .removeNodes i .. => some i | .addEdge i .. => some i | .addEdgeA i .. => some i | .addEdgesA i .. => some i
+  | .removeEdge i .. => some i | .removeEdges i .. => some i | .makeEdgesType i .. => some i
+  | .makeEdgesAll i => some i | .clear i => some i | .addInter i .. => some i
   | .addOrReplace i .. => some i | .removeInter i .. => some i | .merge i _ => some i
   | .removeMatching i .. => some i | .pruneEdges i .. => some i | .pruneByName i .. => some i
-  | .copy _ => none | .subgraph .. => none | .newMol _ => none | .fromBlock .. => none
+  | .addLog i .. => some i
+  | .copy _ => none | .subgraph .. => none | .newMol .. => none | .fromBlock .. => none | .buildBlock .. => none
 
 theorem onMol_frame (p : Pool) (i : Nat) (f : Mol → Mol × Outcome) :
     (onMol p i f).1.length = p.length ∧ ∀ j, j ≠ i → (onMol p i f).1[j]? = p[j]? := by
@@ -113,12 +173,19 @@ theorem step_frame_target (p : Pool) (op : Op) (i : Nat) (h : op.target = some i
   rename_i j
   simp only [step]
   split
-  · exact ⟨rfl, fun _ _ => rfl⟩
+  · exact onMol_frame p _ _
   · split
     · refine ⟨by simp [setAt], ?_⟩
       intro k hk
       exact List.getElem?_set_ne (fun e => hk e.symm)
     · exact ⟨rfl, fun _ _ => rfl⟩
+
+theorem fromBlockStep_append (p : Pool) (b : Block) (ao ro co : Int) :
+    (fromBlockStep p b ao ro co).1 = p ∨ ∃ m, (fromBlockStep p b ao ro co).1 = p ++ [m] := by
+  unfold fromBlockStep
+  split
+  · exact Or.inr ⟨_, rfl⟩
+  · exact Or.inl rfl
 
 theorem step_frame_append (p : Pool) (op : Op) (h : op.target = none) :
     (step p op).1 = p ∨ ∃ m, (step p op).1 = p ++ [m] := by
@@ -132,8 +199,9 @@ theorem step_frame_append (p : Pool) (op : Op) (h : op.target = none) :
       · exact Or.inr ⟨_, rfl⟩
       · exact Or.inl rfl
   · exact Or.inr ⟨_, rfl⟩
+  · exact fromBlockStep_append p _ _ _ _
   · simp only [step]; split
-    · exact Or.inr ⟨_, rfl⟩
+    · exact fromBlockStep_append p _ _ _ _
     · exact Or.inl rfl
 
 /-! ### error outcomes -/
@@ -160,52 +228,76 @@ theorem onMol_err (p : Pool) (i : Nat) (f : Mol → Mol × Outcome)
     simp only [setAt]
     rw [hf m h]; exact set_self p i m hm
 
-theorem mergeCore_err (self other : Mol) (nrexcl : Option Int) (offset roff coff : Int)
+/-- once the newcomer's log entries mention only its own atoms, `mergeCore` is all-or-nothing -/
+theorem mergeCore_err (self other : Mol) (nrexcl : Option Int) (offset roff coff : Int) (hl : other.LogOk)
     (h : (self.mergeCore other nrexcl offset roff coff).2 ≠ .ok) :
     (self.mergeCore other nrexcl offset roff coff).1 = self := by
   unfold Mol.mergeCore at h ⊢
   dsimp only at h ⊢
   split
-  · rename_i h1 h2; rw [h1, h2] at h; exact absurd rfl h
+  · rename_i h1 h2
+    rw [h1, h2] at h
+    dsimp only at h
+    rw [mergeLogs_ok _ _ _ _ hl] at h
+    exact absurd rfl h
   · rfl
 
-theorem merge_fst_of_err (self other : Mol) (h : (self.merge other).2 ≠ .ok) :
+theorem merge_fst_of_err (self other : Mol) (hl : other.LogOk) (h : (self.merge other).2 ≠ .ok) :
     (self.merge other).1 = self := by
   unfold Mol.merge at h ⊢
   dsimp only at h ⊢
   split
   · rfl
-  · rename_i hn
-    rw [if_neg hn] at h
+  · rename_i hf
+    rw [if_neg hf] at h
     split
     · rfl
-    · rename_i o r c ho
-      rw [ho] at h
-      exact mergeCore_err _ _ _ _ _ _ h
+    · rename_i hn
+      rw [if_neg hn] at h
+      split
+      · rfl
+      · rename_i o r c ho
+        rw [ho] at h
+        exact mergeCore_err _ _ _ _ _ _ hl h
 
-theorem addOrReplace_err (m : Mol) (ty : String) (atoms : List Int) (params : String) (version : Int)
-    (cites : List String) (h : (m.addOrReplace ty atoms params version cites).2 ≠ .ok) :
-    (m.addOrReplace ty atoms params version cites).1 = m := by
+theorem addOrReplace_err (m : Mol) (ty : String) (atoms : List Int) (params : String) (version : Option Int)
+    (cites : List String) (edge : Bool) (h : (m.addOrReplace ty atoms params version cites edge).2 ≠ .ok) :
+    (m.addOrReplace ty atoms params version cites edge).1 = m := by
   unfold Mol.addOrReplace at h ⊢
   dsimp only at h ⊢
-  cases hl : replaceFirst m.inters ty { atoms := atoms, params := params, version := version } with
+  cases hl : replaceFirst m.inters ty { atoms := atoms, params := params, version := version, edge := edge } with
   | some l => rw [hl] at h; exact absurd rfl h
   | none =>
     rw [hl] at h
     dsimp only at h ⊢
     by_cases ha : atoms.all m.hasNode = true
-    · have e : m.addInter ty atoms params version =
-          ({ m with inters := m.inters ++ [(ty, { atoms := atoms, params := params, version := version })] }, .ok) := by
+    · have e : m.addInter ty atoms params version edge =
+          ({ m with inters := m.inters ++ [(ty, { atoms := atoms, params := params, version := version, edge := edge })] }, .ok) := by
         unfold Mol.addInter; rw [if_pos ha]
       rw [e] at h; exact absurd rfl h
-    · have e : m.addInter ty atoms params version = (m, .keyerror) := by
+    · have e : m.addInter ty atoms params version edge = (m, .keyerror) := by
         unfold Mol.addInter; rw [if_neg ha]
       rw [e]
 
-theorem step_err (p : Pool) (op : Op) (h : (step p op).2 ≠ .ok) : (step p op).1 = p := by
+/-- the two ways a failing operation can still have changed the state (findings F-C12-5 / F-C12-6):
+a molecule merged into itself, and a merge whose newcomer has a log entry that mentions an atom
+the newcomer does not have.  Everything else is all-or-nothing. -/
+def Op.failSafe (p : Pool) : Op → Bool
+  | .merge i j => decide (i ≠ j) && (p[j]?).all (fun o => decide o.LogOk)
+  | _ => true
+
+theorem fromBlockStep_err (p : Pool) (b : Block) (ao ro co : Int) (h : (fromBlockStep p b ao ro co).2 ≠ .ok) :
+    (fromBlockStep p b ao ro co).1 = p := by
+  unfold fromBlockStep at h ⊢
+  split
+  · rename_i m hm; rw [hm] at h; exact absurd rfl h
+  · rfl
+
+theorem step_err (p : Pool) (op : Op) (hfs : op.failSafe p = true) (h : (step p op).2 ≠ .ok) : (step p op).1 = p := by
   cases op with
   | addNode i k a => exact onMol_err p i _ (fun m hm => absurd rfl hm) h
   | addNodes i l => exact onMol_err p i _ (fun m hm => absurd rfl hm) h
+  | addNodesC i l c => exact onMol_err p i _ (fun m hm => absurd rfl hm) h
   | removeNode i k =>
     apply onMol_err p i _ _ h
     intro m hm
@@ -214,15 +306,27 @@ theorem step_err (p : Pool) (op : Op) (h : (step p op).2 ≠ .ok) : (step p op).
     · rfl
   | removeNodes i ks => exact onMol_err p i _ (fun m hm => absurd rfl hm) h
   | addEdge i u v => exact onMol_err p i _ (fun m hm => absurd rfl hm) h
-  | addInter i ty atoms params version =>
+  | addEdgeA i u v a => exact onMol_err p i _ (fun m hm => absurd rfl hm) h
+  | addEdgesA i l => exact onMol_err p i _ (fun m hm => absurd rfl hm) h
+  | removeEdge i u v =>
+    apply onMol_err p i _ _ h
+    intro m hm
+    split
+    · rename_i hk; rw [if_pos hk] at hm; exact absurd rfl hm
+    · rfl
+  | removeEdges i l => exact onMol_err p i _ (fun m hm => absurd rfl hm) h
+  | makeEdgesType i ty => exact onMol_err p i _ (fun m hm => absurd rfl hm) h
+  | makeEdgesAll i => exact onMol_err p i _ (fun m hm => absurd rfl hm) h
+  | clear i => exact onMol_err p i _ (fun m hm => absurd rfl hm) h
+  | addInter i ty atoms params version edge =>
     apply onMol_err p i _ _ h
     intro m hm
     unfold Mol.addInter at hm ⊢
     split
     · rename_i ha; rw [if_pos ha] at hm; exact absurd rfl hm
     · rfl
-  | addOrReplace i ty atoms params version cites =>
-    exact onMol_err p i _ (fun m hm => addOrReplace_err m ty atoms params version cites hm) h
+  | addOrReplace i ty atoms params version cites edge =>
+    exact onMol_err p i _ (fun m hm => addOrReplace_err m ty atoms params version cites edge hm) h
   | removeInter i ty atoms version =>
     apply onMol_err p i _ _ h
     intro m hm
@@ -239,6 +343,7 @@ theorem step_err (p : Pool) (op : Op) (h : (step p op).2 ≠ .ok) : (step p op).
     · rfl
   | pruneEdges i a b => exact onMol_err p i _ (fun m hm => absurd rfl hm) h
   | pruneByName i na nb => exact onMol_err p i _ (fun m hm => absurd rfl hm) h
+  | addLog i lvl entry args => exact onMol_err p i _ (fun m hm => absurd rfl hm) h
   | copy i =>
     simp only [step] at h ⊢
     split
@@ -255,22 +360,22 @@ theorem step_err (p : Pool) (op : Op) (h : (step p op).2 ≠ .ok) : (step p op).
       · rename_i s hs; rw [hs] at h; exact absurd rfl h
       · rfl
   | merge i j =>
-    simp only [step] at h ⊢
+    simp only [Op.failSafe, Bool.and_eq_true, decide_eq_true_eq] at hfs
+    obtain ⟨hij, hlog⟩ := hfs
+    simp only [step, if_neg hij] at h ⊢
     split
+    · rename_i a b ha hb
+      rw [ha, hb] at h
+      simp only [hb, Option.all_some, decide_eq_true_eq] at hlog
+      simp only [setAt]
+      rw [merge_fst_of_err a b hlog h]; exact set_self p i a ha
     · rfl
-    · rename_i hij
-      rw [if_neg hij] at h
-      split
-      · rename_i a b ha hb
-        rw [ha, hb] at h
-        simp only [setAt]
-        rw [merge_fst_of_err a b h]; exact set_self p i a ha
-      · rfl
-  | newMol n => exact absurd rfl h
-  | fromBlock b ao ro co =>
+  | newMol n ff => exact absurd rfl h
+  | fromBlock b ao ro co => exact fromBlockStep_err p b ao ro co h
+  | buildBlock b0 steps ao ro co =>
     simp only [step] at h ⊢
     split
-    · rename_i m hm; rw [hm] at h; exact absurd rfl h
+    · rename_i b hb; rw [hb] at h; exact fromBlockStep_err p b ao ro co h
     · rfl
 
 end C12
